@@ -92,7 +92,7 @@ def check(ctx, src):
                 ctx.ok("POS-SOURCE", key, "Result with a statement/expression added on every path")
             else:
                 ctx.unres("POS-SOURCE", key, f"position taken from the Result `{l.id}`, which may be empty for forms such as (do): lineno would be None")
-    ctx.require(n_pos >= 140, f"only {n_pos} asty constructions with a position argument found")
+    ctx.need(n_pos >= 140, f"only {n_pos} asty constructions with a position argument found")
     # --- synthesized forms
     n_syn = 0
     for r_ in comp.registry:
@@ -113,7 +113,7 @@ def check(ctx, src):
             key = f"{R}|{comp.rm.qual_of(c)}|{norm(c)[:50]}"
             ctx.check(_ends_in_replace(c), "POS-SYNTH", key, "a synthesised form is compiled without being given the position of the user's form: its nodes default to line 1", R, c.lineno,
                       witness="(+= total i None) on line 7 raises with a traceback pointing at line 1", detail=".replace(expr)")
-    ctx.require(n_syn >= 6, f"only {n_syn} synthesised forms found")
+    ctx.need(n_syn >= 6, f"only {n_syn} synthesised forms found")
     ctx.assume("which line a concrete traceback shows is not simulated; position sources taken from possibly empty Results are listed as unresolved")
     ctx.floor("POS-ATTRS", 5)
 
